@@ -49,26 +49,56 @@ theorem replaceAll_alloc (s q r : Str) : (replaceAll s q r).length ≤ s.length 
 example : replaceAll "hello world world".toList "world".toList "X".toList = "hello X X".toList := by decide
 example : count "aaa".toList "aa".toList = 2 ∧ count "abc".toList [] = 3 := by decide
 
-/-! ## number conversion: raises only the library's exception -/
+/-! ## number conversion
 
-theorem toDouble_safe (dec sci : Char) (s : Str) : safe (toDoubleClass dec sci s) = true := by
+The theorems about the conversions are in `Props/C16Recog.lean` (the recognisers and `toDouble`
+with every `s[i]` / `s[i + 1]` access checked: `isDecimalNumberU_refines`,
+`isDecimalIntegerU_refines`, `toDoubleU_refines`, `toDoubleU_safe`) and `Props/C16ToInt.lean`
+(`toInt` with every `long long` operation checked: `toIntU_refines`, `toIntU_safe`).  The two
+remarks below are about the *outcome classes* `toDoubleClass` / `toIntClass` the other models
+(readDescription, the lists of the distribution reader) are written with: they are total by
+construction — `.ok` or the library's exception, nothing about the C++ is expressed in them — and
+are tied to the UB-aware models by the refinement theorems just named. -/
+
+/-- remark (true by construction of `toDoubleClass`, formerly named `toDouble_safe`): the outcome
+class is `.ok` or `.error .bpp`.  The statement about the code is `toDoubleU_safe`. -/
+theorem toDoubleClass_total (dec sci : Char) (s : Str) : safe (toDoubleClass dec sci s) = true := by
   unfold toDoubleClass; split <;> rfl
 
-theorem toInt_safe (sci : Char) (s : Str) : safe (toIntClass sci s) = true := by
+/-- remark (true by construction of `toIntClass`, formerly named `toInt_safe`); the statement about
+the code is `toIntU_safe` / `toIntU_refines`. -/
+theorem toIntClass_total (sci : Char) (s : Str) : safe (toIntClass sci s) = true := by
   unfold toIntClass; split <;> rfl
 
-example : safe (toDoubleClass '.' 'e' "1e".toList) = true := toDouble_safe _ _ _
+example : safe (toDoubleClass '.' 'e' "1e".toList) = true := toDoubleClass_total _ _ _
 
-/-! ## fixed width -/
+/-! ## fixed width
 
-/-- `resizeRight` returns exactly `newSize` characters (`newSize ≤ max_size()`: beyond, `reserve`
-throws `std::length_error` — the allocation is the caller's `newSize`, not a function of the text) -/
-theorem resizeRight_safe_alloc (s : Str) (n : Nat) (f : Char) (hn : n ≤ maxStr) :
+The full statement `∀ s n f, safe (resizeRight s n f)` is FALSE, of the model and of the code: the
+result has `newSize` characters, and `newSize` is the caller's number, not a function of the text.
+Beyond `max_size()` `reserve` throws `std::length_error` (`resize_beyond_max_size_std`); between the
+memory that can actually be allocated and `max_size()` the code throws `std::bad_alloc` — also not
+the library's exception — which the model, having no memory, cannot express.  The `_partial`
+theorems below therefore hold of the code only under the additional, unmodelled assumption that
+`newSize` characters can be allocated (props/C16.json, assumptions). -/
+
+/-- `resizeRight` returns exactly `newSize` characters when `newSize ≤ max_size()` (and, in the code,
+when that much memory can be allocated) -/
+theorem resizeRight_safe_alloc_partial (s : Str) (n : Nat) (f : Char) (hn : n ≤ maxStr) :
     ∃ r, resizeRight s n f = .ok r ∧ r.length = n := resizeRight_spec s n f hn
 
-/-- `resizeLeft`: `begin() + (size - newSize)` is a valid iterator -/
-theorem resizeLeft_safe_alloc (s : Str) (n : Nat) (f : Char) (hs : StrOk s) (hn : n ≤ maxStr) :
+/-- `resizeLeft`: `begin() + (size - newSize)` is a valid iterator (same restriction on `newSize`) -/
+theorem resizeLeft_safe_alloc_partial (s : Str) (n : Nat) (f : Char) (hs : StrOk s) (hn : n ≤ maxStr) :
     ∃ r, resizeLeft s n f = .ok r ∧ r.length = n := resizeLeft_spec s n f hs hn
+
+/-- the unguarded statement is false: a `newSize` above `max_size()` gives `std::length_error`, an
+exception that is not the library's -/
+theorem resize_beyond_max_size_std (s : Str) (n : Nat) (f : Char) (hn : maxStr < n) :
+    resizeRight s n f = .error .std ∧ resizeLeft s n f = .error .std := by
+  unfold resizeRight resizeLeft
+  simp [hn]
+
+example : safe (resizeRight "ab".toList (maxStr + 1) ' ') = false := by decide
 
 example : resizeRight "hello world".toList 4 ' ' = .ok "hell".toList ∧
     resizeLeft "hello world".toList 4 ' ' = .ok "orld".toList ∧
